@@ -139,8 +139,34 @@ def gen_use_group(rng):
     return "".join(out)
 
 
+def gen_cycle(rng):
+    """module files that include each other in a circle (or a file that includes itself); links are spelled plainly,
+    with `./`, or with a `../<dir>/` detour.  The compiler rejects such a crate; the formatter merely has to survive
+    it (status 0 or 1).  The directory name is long so that a chain of detours meets the path length limit quickly."""
+    d = "w_" + "".join(rng.choice("abcdefghijklmnopqrstuvwxyz") for _ in range(rng.range(30, 44)))
+    n = rng.choice([1, 2, 2, 3])
+    names = ["main.rs"] + ["cy%d.rs" % i for i in range(1, n)]
+    files = {}
+    for i, nm in enumerate(names):
+        nxt = names[(i + 1) % n]
+        sp = rng.choice(["plain", "dot", "dotdot", "dotdot"])
+        p = {"plain": nxt, "dot": "./" + nxt, "dotdot": "../%s/%s" % (d, nxt)}[sp]
+        decl = '#[path = "%s"]\nmod nx%d;\n' % (p, i)
+        form = rng.below(10)
+        if form == 0:
+            decl = "cfg_if::cfg_if! {\n    if #[cfg(unix)] {\n        %s    }\n}\n" % decl.replace("\n", "\n        ", 1)
+        elif form == 1:
+            decl = '#[cfg_attr(unix, path = "%s")]\nmod nx%d;\n' % (p, i)
+        files["%s/%s" % (d, nm)] = decl + gen_rust.tiny_unformatted("c%d" % i)
+    return d, files
+
+
 def generate(rng, tier):
-    lane = "C" if rng.chance(12) else ("G" if rng.chance(10) else ("D" if rng.chance(6) else "B"))
+    lane = "C" if rng.chance(12) else ("G" if rng.chance(10) else ("D" if rng.chance(6) else ("Y" if rng.chance(3) else "B")))
+    if lane == "Y":
+        d, files = gen_cycle(rng)
+        return {"lane": "Y", "dir": d, "files": files, "emit": rng.choice([[], ["--check"], ["--emit", "stdout"], ["--backup"]]),
+                "spelling": rng.choice(["rel", "abs", "cwd"]), "hashseed": rng.below(1 << 32)}
     if lane == "D":
         # an ordinary, valid input whose result cannot be stored: the k-th mutating file-system call fails
         return {"lane": "D", "text": gen_rust.unformatted(rng, 2), "backup": rng.chance(50), "k": rng.range(1, 4),
@@ -217,6 +243,19 @@ def execute(case):
     with core.Scratch() as sc:
         if case["lane"] == "C":
             return _lane_c(case, v, sc)
+        if case["lane"] == "Y":
+            sc.fresh_world({"files": case["files"]})
+            root = {"rel": case["dir"] + "/main.rs", "abs": "$ROOT/%s/main.rs" % case["dir"], "cwd": "main.rs"}[case["spelling"]]
+            res = core.run_inv(sc, {"argv": list(case["emit"]) + [root], "cwd": case["dir"] if case["spelling"] == "cwd" else ".",
+                                    "hashseed": case["hashseed"]})
+            v.account(res)
+            ab = core.abnormal(res)
+            if ab:
+                v.add("C16:%s|module-cycle" % ab, "modules including each other in a circle: argv=%s status=%s stderr=%r" % (
+                    list(case["emit"]) + [root], res.status(), core.text_of(res.stderr)[-300:]))
+            v.probe("module-cycle")
+            v.sample = v.sample or {"lane": "Y", "status": res.status()}
+            return v
         if case["lane"] == "D":
             files = {"w/main.rs": ("mod input;\n" if case["module"] else "") + case["text"]}
             if case["module"]:
